@@ -443,50 +443,71 @@ func (e *c19Env) l2(out *zzverif.Out, c *c19Case, costs []int, r *c19Real, line 
 		}
 	}
 	cnt := func(j int) int { return strings.Count(r.prompt, c19Marker(j)) }
-	// Diagnosis for the legacy (non-messages) template path only: message j's pending
-	// system/prompt/response slot is overwritten, without having been rendered, by a later message
-	// of the same role when everything between them is inert for the legacy loop (a role it
-	// ignores, or an empty content that does not trigger a flush).  Evaluated on the list the
-	// specification says the template must receive: system messages before n, then msgs[n:].
-	var input []int
-	for j := 0; j < n; j++ {
-		if c.msgs[j].role == "s" {
-			input = append(input, j)
+	// Diagnosis for the legacy (non-messages) template path only, used to label failures for
+	// known-finding matching (it never turns a failure into a pass): replay which pending
+	// system/prompt/response slot the pinned legacy loop overwrites, without rendering it, on the
+	// list the specification says the template must receive (system messages before n, then
+	// msgs[n:], contents as rewritten by the real call).  lost[j] = message that overwrote j.
+	lost := map[int]int{}
+	if c.style == c19StyleLegacy || c.style == c19StyleDefault {
+		type slot struct {
+			content string
+			idx     []int
 		}
-	}
-	for j := n; j < L; j++ {
-		input = append(input, j)
+		var groups []struct {
+			role string
+			slot
+		}
+		add := func(j int) {
+			role, content := c.msgs[j].role, r.msgs[j].Content
+			if k := len(groups); k > 0 && groups[k-1].role == role {
+				groups[k-1].content += "\n\n" + content
+				groups[k-1].idx = append(groups[k-1].idx, j)
+				return
+			}
+			groups = append(groups, struct {
+				role string
+				slot
+			}{role, slot{content, []int{j}}})
+		}
+		for j := 0; j < n; j++ {
+			if c.msgs[j].role == "s" {
+				add(j)
+			}
+		}
+		for j := n; j < L; j++ {
+			add(j)
+		}
+		var sys, prompt, resp slot
+		flush := func() { sys, prompt, resp = slot{}, slot{}, slot{} }
+		write := func(dst *slot, g slot) {
+			if dst.content != "" {
+				for _, j := range dst.idx {
+					lost[j] = g.idx[0]
+				}
+			}
+			*dst = g
+		}
+		for _, g := range groups {
+			switch g.role {
+			case "s":
+				if prompt.content != "" || resp.content != "" {
+					flush()
+				}
+				write(&sys, g.slot)
+			case "u":
+				if resp.content != "" {
+					flush()
+				}
+				write(&prompt, g.slot)
+			case "a":
+				write(&resp, g.slot)
+			}
+		}
 	}
 	overwrittenBy := func(j int) int {
-		if c.style != c19StyleLegacy && c.style != c19StyleDefault {
-			return -1
-		}
-		R := c.msgs[j].role
-		p := -1
-		for x, y := range input {
-			if y == j {
-				p = x
-			}
-		}
-		if p < 0 {
-			return -1
-		}
-		q := p + 1
-		for q < len(input) && c.msgs[input[q]].role == R {
-			q++
-		}
-		start := q
-		for q < len(input) {
-			m := c.msgs[input[q]]
-			legacyRole := m.role == "s" || m.role == "u" || m.role == "a"
-			if m.role != R && (!legacyRole || m.content == "") {
-				q++
-				continue
-			}
-			break
-		}
-		if q > start && q < len(input) && c.msgs[input[q]].role == R {
-			return input[q]
+		if k, ok := lost[j]; ok {
+			return k
 		}
 		return -1
 	}
@@ -794,7 +815,9 @@ func TestVerifC19(t *testing.T) {
 		c := c19Fixed[i]
 		e.runCase(out, &c)
 	}
-	root := zzverif.NewRng(zzverif.Seed())
+	// NewRng(seed+1) is NewRng(seed) advanced by one draw, so consecutive seeds would replay the
+	// same cases shifted by one; forking once decorrelates them.
+	root := zzverif.NewRng(zzverif.Seed()).Fork()
 	n := zzverif.EnvInt("VERIF_N", 3000)
 	for i := 0; i < n; i++ {
 		r := root.Fork()
